@@ -21,7 +21,7 @@ class EvRec(object):
 class CallRec(object):
     __slots__ = ('seq', 't', 'op', 'spec', 'outcome', 'exc', 'exc_is_wse',
                  'wrote', 'n_sendall', 'at_event', 'sock', 'args_intact',
-                 'wire_before')
+                 'wire_before', 'k0')
 
     def summary(self):
         return {'op': self.op, 'outcome': self.outcome, 'exc': self.exc,
@@ -168,6 +168,7 @@ class App(object):
         before = len(sock.out_bytes) if sock is not None else 0
         nsend = sock.n_sendall if sock is not None else 0
         rec.wire_before = before
+        rec.k0 = nsend
         rec.args_intact = True
         try:
             self._call(ws, op, rec)
